@@ -1,5 +1,6 @@
 """C03 - Stream pipelines equal their sequential meaning (reference interpreter of plain generators)."""
 import itertools
+import zlib
 import random as _random
 import time
 from collections import deque
@@ -96,7 +97,7 @@ FN = {f.__name__: f for f in (f_inc, f_dbl, f_len, f_sum, f_rev, f_grouplist, p_
 def slow(fn, delays):
     def g(x):
         if delays:
-            d = delays[(hash(repr(x)) if not isinstance(x, int) else x) % len(delays)] if not isexc(x) else 0
+            d = delays[(zlib.crc32(repr(x).encode()) if not isinstance(x, int) else x) % len(delays)] if not isexc(x) else 0
             if d:
                 time.sleep(d)
         return fn(x)
